@@ -566,6 +566,12 @@ class BlockMessageMethodSetByteItem(BlockMessageMethodGetSetByteItemBase):
             # Cast to signed-int if overflows
             # Python dosen't have a type for int8, int16..
             caster = "bp.int{}".format(self.formatter.get_nbits_of_integer(single))
+        if isinstance(single, Enum):
+            # A chunk of an enum value isn't an enum member by itself, assemble
+            # the integer value (on the integer proxy for a direct enum field).
+            type_name = "int"
+            if self.array_depth == 0:
+                left = f"self.{_enum_field_proxy_prefix}{self.message_field_name}"
 
         right = value = f"{type_name}(b)"
 
